@@ -663,6 +663,8 @@ class Exec:
             return self.models.list_repeat(self, st, ld, n, node)
         if isinstance(ld, VList) and isinstance(rd, VList) and isinstance(op, ast.Add):
             return st.alloc(VList(ld.items + rd.items))
+        if isinstance(ld, VTuple) and isinstance(rd, VTuple) and isinstance(op, ast.Add):
+            return VTuple(ld.items + rd.items)
         if isinstance(ld, (VList, VSeq)) and isinstance(rd, (VList, VSeq)) and isinstance(op, ast.Add):
             return self.models.seq_concat(self, st, ld, rd, node)
         if isinstance(l, VStr) or isinstance(r, VStr):
